@@ -792,6 +792,79 @@ fn main() {
         }
     }
 
+    // 1b. very long equations: the solvers keep per-equation variable counts and
+    //     per-variable occurrence lists; nothing may be narrowed below usize
+    if !small {
+        for &(name, n, long_len) in &[("len255", 300usize, 255usize), ("len256", 300, 256), ("len65535", 65535, 65535), ("len65536", 65536, 65536), ("len65537", 65600, 65537), ("len70000-of-80000", 80000, 70000), ("len131073", 131073, 131073)] {
+            for w in [0usize, 3] {
+                ctx.case(WNAMES[w], &format!("long-equation/{}", name), "solve", |c| {
+                    fn go<W: MW>(c: &mut Case, name: &str, n: usize, long_len: usize) {
+                        let bits = W::NBITS;
+                        let mut sat = 0;
+                        let mut descr = vec![];
+                        for variant in 0..4 {
+                            // the long equation: the first long_len variables, or a random subset of that size
+                            let long: Vec<u32> = if variant % 2 == 0 || long_len == n {
+                                (0..long_len as u32).collect()
+                            } else {
+                                let mut drop: Vec<u32> = (0..(n - long_len)).map(|_| c.rng().random_range(0..n as u32)).collect();
+                                drop.sort_unstable();
+                                drop.dedup();
+                                let mut v: Vec<u32> = (0..n as u32).filter(|x| drop.binary_search(x).is_err()).collect();
+                                v.truncate(long_len);
+                                v
+                            };
+                            let k0 = rand_const(c.rng(), bits);
+                            let mut eqs: Vec<(Vec<u32>, u128)> = vec![(long.clone(), k0)];
+                            // unit equations sharing variables with the long one
+                            for &i in &[long[5 % long.len()], long[long.len() / 2], long[long.len() - 1]] {
+                                eqs.push((vec![i], rand_const(c.rng(), bits)));
+                            }
+                            match variant {
+                                1 => {
+                                    // a second long equation differing in one variable, plus a pair
+                                    let mut l2 = long.clone();
+                                    l2.remove(long.len() / 3);
+                                    eqs.push((l2, rand_const(c.rng(), bits)));
+                                    eqs.push((vec![long[1], long[long.len() - 2]], rand_const(c.rng(), bits)));
+                                }
+                                2 => {
+                                    // the long equation again with another constant: unsolvable unless equal
+                                    eqs.push((long.clone(), k0 ^ 1));
+                                }
+                                3 => {
+                                    // repeated (redundant) long equation and a dependent triple
+                                    eqs.push((long.clone(), k0));
+                                    let (a, b, d) = (long[2], long[3], long[4]);
+                                    eqs.push((vec![a, b], 1));
+                                    eqs.push((vec![b, d], 1));
+                                    eqs.push((vec![a, d], 0));
+                                }
+                                _ => {}
+                            }
+                            // equations must be pushed in any order
+                            if variant >= 2 {
+                                eqs.reverse();
+                            }
+                            let s = Sys { n, eqs };
+                            if check_system::<W>(c, &s, false) {
+                                sat += 1;
+                            }
+                            descr.push(format!("variant {}: num_vars={} long equation of {} variables, {} equations, short ones {:?}", variant, n, long_len, s.eqs.len(), s.eqs.iter().filter(|e| e.0.len() < 10).collect::<Vec<_>>()));
+                        }
+                        c.nontrivial();
+                        c.set_cell(format!("{}|long-equation/{}|{}of4-solvable", W::NAME, name, sat));
+                        c.describe(|| descr.join(" || "));
+                    }
+                    match w {
+                        0 => go::<u8>(c, name, n, long_len),
+                        _ => go::<u64>(c, name, n, long_len),
+                    }
+                });
+            }
+        }
+    }
+
     // 2. shape x word type x size grid
     {
         let ns: Vec<usize> = if small { vec![1, 3, 9] } else { vec![1, 2, 3, 5, 8, 20, 63, 64, 65, 128, 129, 200] };
